@@ -29,7 +29,8 @@ def run(ck):
         'reads every constraint class the system can hold (gates, permutation, lookups, trashcans): a class a checker never reads cannot be enforced by it; '
         '(R2) per-argument identity-group counts in the verifier-side expression iterators (off-circuit and in-circuit) are at least the protocol\'s '
         '(permutation 4, lookup 5, trash 1); (R3) the expected quotient evaluation is the y-fold of all identities divided by x^n-1 and is opened; '
-        '(R4) every evaluation read after x is part of an opening query; (R5) copy constraints of keygen and mock go through the permutation assembly. '
+        '(R4) every evaluation read after x is part of an opening query; (R5) copy constraints of keygen and mock go through the permutation assembly; (R6) the assignment back ends (keygen, mock) fill the same row domain; '
+        '(R7) cycle walks of the permutation keygen stop on the cursor itself. '
         'That each identity\'s algebra is right, and value-level agreement of mock and verifier, are not decided.')
     r1_cover(ck, w)
     r2_groups(ck, w)
